@@ -541,15 +541,6 @@ def check_level(D, num, IS, coords, ranks, graph_rows=None):
     return None
 
 
-FINDINGS = {}   # local known findings of FEAT (see corpus/c12/findings.txt): id -> {"hits": n, "example": case}
-
-
-def tag_finding(fid, case):
-    f = FINDINGS.setdefault(fid, {"hits": 0, "example": case[:400]})
-    f["hits"] += 1
-    return None
-
-
 def components(D, num, IS):
     """number of facet-connected components of the mesh"""
     adj = adjacent_cells(D, num, IS)
@@ -697,8 +688,8 @@ def oracle(case, out):
                     return "2-level partitioning exists but failure reported"
             if is_abnormal(out) or out == "F":
                 if kind != 0 and out == "EXC:St12out_of_range":
-                    # corpus/c12/findings.txt F-C12-1 (time-seeded, cannot be avoided by the generator): tagged, not failed
-                    return tag_finding("F-C12-1", case)
+                    # open known finding c12-edge:F1 (see signature() and KNOWN_FINDINGS.json)
+                    return "PartiIterative ended with an uncaught std::out_of_range (uninitialised patch index of a cell no centre reached)"
                 return "partitioner + extraction ended with " + out
             o = Tk(out)
             o.expect("P")
@@ -710,8 +701,8 @@ def oracle(case, out):
             e = check_partition_graph(n_img, rows, pcells, nranks)
             if e:
                 if kind != 0 and e == "partitioner returned an empty patch" and components(D, num, IS) > 1:
-                    # corpus/c12/findings.txt F-C12-2 (disconnected base mesh, time-seeded): tagged, not failed
-                    return tag_finding("F-C12-2", case)
+                    # open known finding c12-edge:F2 (see signature() and KNOWN_FINDINGS.json)
+                    return "PartiIterative returned an empty patch without reporting failure (disconnected base mesh)"
                 return e
             o.expect("B")
             fnum = [o.nat() for _ in range(D + 1)]
@@ -852,6 +843,12 @@ def describe(case):
 
 def signature(case, out, why):
     t = case.split()
+    if t[0] == "auto" and t[2] != "0" and why:
+        # the two open defects of Geometry::PartiIterative (time-seeded: they manifest only in some runs)
+        if out == "EXC:St12out_of_range":
+            return "c12-edge:F1"
+        if why.startswith("PartiIterative returned an empty patch without reporting failure (disconnected"):
+            return "c12-edge:F2"
     return "%s:%s:%s" % (t[0], t[1], (why or "")[:40])
 
 
@@ -890,13 +887,14 @@ def main(argv):
             for fn in sorted(os.listdir(cdir)):
                 corpus += [l.strip() for l in open(os.path.join(cdir, fn)) if l.strip() and not l.startswith("#")]
         c_ext = [l for l in corpus if l.split()[0] in ("extract", "p2l", "split")]
-        c_oth = [l for l in corpus if l.split()[0] in ("refine", "auto")]
+        c_oth = [l for l in corpus if l.split()[0] == "refine"]
+        c_aut = [l for l in corpus if l.split()[0] == "auto"]
         n_ext, n_big, n_p2l, n_ref, n_auto, n_iter = (1500, 60, 300, 260, 120, 60) if quick else (20000, 1200, 3000, 4000, 1500, 600)
         ext = CORPUS_EXTRACT + c_ext + [gen_extract(rng) for _ in range(n_ext)] + [gen_extract(rng, True) for _ in range(n_big)]
         spl = [gen_split(rng) for _ in range(n_ext // 5)]
         p2l = [gen_p2l(rng) for _ in range(n_p2l)]
         ref = c_oth + [gen_refine(rng) for _ in range(n_ref)]
-        aut = [gen_auto(rng, False) for _ in range(n_auto)] + [gen_auto(rng, True) for _ in range(n_iter)]
+        aut = c_aut + [gen_auto(rng, False) for _ in range(n_auto)] + [gen_auto(rng, True) for _ in range(n_iter)]
         wf = ["wf" + l[len("extract"):] for l in ext if l.startswith("extract")]
         streams = [
             vlib.Stream("extract", ext, [binary], drv, oracle=oracle, nontrivial=nontrivial, describe=describe,
@@ -916,28 +914,10 @@ def main(argv):
                   "checkerboard, stripes; unsorted rows; empty rank and cell-count mismatch as abort classes), every rank "
                   "extracted with the real extract_patch; 0-2 joint refinements and the built-in partitioners are judged by "
                   "the oracle only; non-trivial = >= 3 ranks and a vertex shared by >= 3 patches")
-    import contextlib
-    import io
-    import sys
-    buf = io.StringIO()
-    with contextlib.redirect_stdout(buf):     # verdict lines are printed after our KNOWN-FINDING lines
-        rc = _run(args, lean, streams, t0, stats_rule)
-    texts = {"F-C12-1": "PartiIterativeIndividual reads the uninitialised PartiIterativeItem::patch of cells no centre "
-                        "reached (dead `bad_centers &=` guard) -> std::out_of_range",
-             "F-C12-2": "parti_iterative_distance wraps Index(max)+1 to 0 on a disconnected mesh -> PartiIterative returns "
-                        "an empty patch without reporting failure"}
-    for fid in sorted(FINDINGS):
-        print("KNOWN-FINDING: property=%s %s %s (%d hits this run; time-seeded partitioner)" % (
-            PROP, fid, texts.get(fid, ""), FINDINGS[fid]["hits"]))
-    sys.stdout.write(buf.getvalue())
-    return rc
-
-
-def _run(args, lean, streams, t0, stats_rule):
     rc = vlib.run_pipeline(PROP, args.tier, args.seed, lean, streams, t0, assumptions=[
         "Index modelled as unbounded Nat (no 64-bit overflow at the sizes FEAT can allocate)",
         "meshes are conforming (Mesh.consistent); the refined base mesh printed by FEAT is taken as the base mesh of "
         "the refined level (its conformity is property C10)",
         "PartiIterative is time-seeded: judged on its output only (oracle), not modelled"],
-        extra_cov={"rule": stats_rule, "feat_findings_tagged": FINDINGS})
+        extra_cov={"rule": stats_rule})
     return rc
